@@ -222,7 +222,7 @@ class Registry:
     def components(self, world):
         comps_ = {"alloc": I}
         comps_.update(COLL_COMPS)
-        names = set(world.all_attr_names()) | {"__class__", "__cause__", "exceptions", "arg0", "arg1", "arg2"}
+        names = set(world.all_attr_names()) | {"__class__", "__cause__", "exceptions", "arg0", "arg1", "arg2", "cell:__parent__"}
         for sch in list(self.schema.values()) + list(self.lib_schema.values()):
             names |= set(sch)
         for lst in self.exc_arg_names.values():
